@@ -38,18 +38,21 @@ const TCP_PORT: u16 = 9001;
 
 fn mk_scenario(id: u64, seed: u64, forced_seed: Option<u64>) -> Value {
     let mut r = SmallRng::seed_from_u64(seed ^ 0x6465_7465_726d);
-    let n = if forced_seed.is_some() { r.random_range(3..=5usize) } else { r.random_range(1..=5usize) };
+    // scenarios 4 and 5 of every batch: IPv4 broadcast family (>= 4 UDP hosts, latency range, 5 with a fail rate)
+    let bcast = id == 4 || id == 5;
+    let n = if bcast { r.random_range(4..=5usize) } else if forced_seed.is_some() { r.random_range(3..=5usize) } else { r.random_range(1..=5usize) };
     let tick = [1u64, 1, 2, 3, 5][r.random_range(0..5)];
     let lat_min = r.random_range(0..=3u64);
-    let lat_max = lat_min + if forced_seed.is_some() { r.random_range(6..=12u64) } else { r.random_range(0..=12u64) };
+    let lat_max = lat_min + if forced_seed.is_some() || bcast { r.random_range(6..=12u64) } else { r.random_range(0..=12u64) };
     let fail_on = r.random_bool(0.35);
+    let fail_on = if id == 5 { true } else if id == 4 { false } else { fail_on };
     let steps = r.random_range(30..=70u64);
     let fams_net = ["udp", "tcp", "none"];
     let fams_loc = ["tokio", "fs", "uring", "fsdur"];
     let mut hosts = Vec::new();
     let fam0 = fams_net[r.random_range(0..2)];
     for h in 0..n {
-        let net = if n == 1 { fams_net[r.random_range(0..3)] } else if r.random_bool(0.8) { fam0 } else { fams_net[r.random_range(0..3)] };
+        let net = if bcast { "udp" } else if n == 1 { fams_net[r.random_range(0..3)] } else if r.random_bool(0.8) { fam0 } else { fams_net[r.random_range(0..3)] };
         let loc = fams_loc[r.random_range(0..4)];
         let mut fsops = Vec::new();
         if loc == "fs" {
@@ -129,7 +132,7 @@ fn mk_scenario(id: u64, seed: u64, forced_seed: Option<u64>) -> Value {
         "repair": repair, // percent
         "random_order": r.random_bool(0.5) || forced_seed.is_some(),
         "tcp_cap": r.random_range(1..=64u32), "udp_cap": r.random_range(1..=64u32),
-        "ipv6": r.random_bool(0.3),
+        "ipv6": r.random_bool(0.3) && !bcast,
         "fs": {
             "sync_p": fs_sync, "io_err_p": fs_ioerr, "short_read_p": fs_short, "corrupt_p": fs_corrupt,
             "lat_min_us": r.random_range(10..=500u32), "lat_extra_us": r.random_range(0..=4000u32),
@@ -199,6 +202,10 @@ async fn prog_udp(me: String, hid: u8, peers: Vec<String>, p: Value, v6: bool) {
         }
     };
     obs(&me, "udp_bind", json!(format!("{:?}", sock.local_addr().ok())));
+    if !v6 {
+        let b = sock.set_broadcast(true);
+        obs(&me, "udp_set_broadcast", json!(ek(&b)));
+    }
     let n = u(&p, "n");
     let gap = Duration::from_millis(u(&p, "gap"));
     let mut sent = 0u64;
@@ -210,9 +217,15 @@ async fn prog_udp(me: String, hid: u8, peers: Vec<String>, p: Value, v6: bool) {
                 Err(e) => { obs(&me, "udp_recv_err", json!(format!("{:?}", e.kind()))); return; }
             },
             _ = tokio::time::sleep(gap), if sent < n && !peers.is_empty() => {
-                let dst = &peers[(sent as usize) % peers.len()];
-                let r = sock.send_to(&[hid, sent as u8, 0xAB], (dst.as_str(), UDP_PORT)).await;
-                obs(&me, "udp_send", json!({"to": dst, "seq": sent, "res": ek(&r)}));
+                if !v6 && sent % 3 == 1 {
+                    // IPv4 broadcast: one send fans out to every host that has the port bound
+                    let r = sock.send_to(&[hid, sent as u8, 0xBC], (Ipv4Addr::BROADCAST, UDP_PORT)).await;
+                    obs(&me, "udp_bcast", json!({"seq": sent, "res": ek(&r)}));
+                } else {
+                    let dst = &peers[(sent as usize) % peers.len()];
+                    let r = sock.send_to(&[hid, sent as u8, 0xAB], (dst.as_str(), UDP_PORT)).await;
+                    obs(&me, "udp_send", json!({"to": dst, "seq": sent, "res": ek(&r)}));
+                }
                 sent += 1;
             }
         }
